@@ -9,6 +9,7 @@ import sz as SZ
 import ms as MS
 import rw as RW
 import mg as MG
+import sl as SL
 
 CONTAINERS = "emap 0.0.13 / micromap 0.0.19 / microstack 0.0.7 as audited (DESIGN §3)"
 HAND = "hand argument DESIGN §5.0: rules ⇒ invariants I1–I3 ⇒ statement"
@@ -178,5 +179,23 @@ PROPS = {
         "explanation": "MG7 Ok guarded by ?-success ∧ |mapped| == |right|, MG8 Err names the difference, sorted.",
         "trusted": [RUSTC],
         "assumptions": [],
+    },
+    "C13": {
+        "claim": "Decides SL1–SL6: every insertion into the work set inside the closure loop is control-dependent on the visited set not containing that vertex and the vertex is marked on enqueue or dequeue (each vertex processed at most once: termination on cycles; roles found structurally); a vertex is enqueued only under p(from,to,label) true with exactly the scanned edge's components, every edge of a visited vertex being scanned; the rebuild calls add/bind only, bind(v1,v2,k) with exactly (outer key, inner target, inner label) of the edge iterated, control-dependent on nothing but membership of both endpoints in the visited set; nothing is written through &self; the slice has the source's capacity; slice() passes the constantly-true predicate. Does not decide set equality with graph reachability as such.",
+        "note": "Trusted: rustc front end + engine; std HashSet. Soundness of each copy, completeness of the scan and termination are decided; equality of the kept set with the reachable set follows by the standard work-list argument (hand).",
+        "technique": "MIR visited-set discipline (guard + co-occurrence) + provenance of rebuild arguments + purity",
+        "rules": [("SL1/SL2", SL.sl12), ("SL3-6", SL.sl3456)],
+        "explanation": "SL1 visited-set discipline, SL2 predicate arguments, SL3 rebuild shape, SL4 read-only source, SL5 capacity, SL6 constant predicate.",
+        "trusted": [RUSTC, CONTAINERS],
+        "assumptions": ["everything reachable from v is present and numbers at most 14 vertices"],
+    },
+    "C19": {
+        "claim": "Decides ND1–ND3, which remove every source of run-to-run or size dependence: values produced by iterating a std hash container, and loop bodies driven by them, reach only order-insensitive uses (set/map insert, contains, len, reads, the user predicate) unless sorted first — never a graph mutator, next_id or an unsorted returned sequence/string; time/random/environment sources feed logging only and no pointer is turned into a number; the const parameter N never occurs as a value and capacity() flows only into Sodg::empty, a diverging bound check or logging. Does not decide equality of whole traces across configurations as such.",
+        "note": "Trusted: rustc front end + engine; micromap iteration is insertion-ordered and emap iteration ascending (deterministic), as read.",
+        "technique": "MIR taint analysis (hash-iteration order, time, size parameters) with sort as sanitiser",
+        "rules": [("ND1", SL.nd1), ("ND2", SL.nd2), ("ND3", SL.nd3)],
+        "explanation": "ND1 hash-order taint (floor 3 sources), ND2 other nondeterminism sources, ND3 N / capacity only as bounds.",
+        "trusted": [RUSTC, CONTAINERS],
+        "assumptions": ["sequences that fit within the limits of both configurations"],
     },
 }
